@@ -23,8 +23,9 @@ NULLABLE_SUBS = ["Int8", "Int16", "Int32", "Int64", "UInt8", "UInt16", "UInt32",
 UNITS = ["s", "ms", "us", "ns"]
 TZS = [None, None, "UTC", "Europe/London", "America/St_Johns", "+03:00", "-09:30"]
 
-ROWS_QUICK = [0, 1, 2, 3, 5, 7, 8, 9, 15, 16, 17, 31, 33, 63, 64, 65]
-ROWS_THOROUGH = ROWS_QUICK + [127, 128, 129, 255, 257, 1000, 8191, 8192, 8193]
+# (504/505/513: where the run header of the definition levels of one page starts to need two bytes)
+ROWS_QUICK = [0, 1, 2, 3, 5, 7, 8, 9, 15, 16, 17, 31, 33, 63, 64, 65, 504, 505, 513]
+ROWS_THOROUGH = ROWS_QUICK + [127, 128, 129, 255, 257, 1000, 1024, 8191, 8192, 8193]
 
 ALL_KINDS = ["bool", "int", "float", "text", "bytes", "json", "datetime", "timedelta", "category", "nullable"]
 
